@@ -87,6 +87,28 @@ func (o *ObjectSchema) GetDefaults() map[string]any {
 	return o.defaultValues
 }
 
+// copyDefaultValue returns a deep copy of a decoded default value (the output of encoding/json: maps, slices
+// and scalars). Defaults are shared by every call on the schema; what is handed into a result, or extended with
+// the defaults of a sub-object, must be a copy.
+func copyDefaultValue(value any) any {
+	switch v := value.(type) {
+	case map[string]any:
+		result := make(map[string]any, len(v))
+		for key, item := range v {
+			result[key] = copyDefaultValue(item)
+		}
+		return result
+	case []any:
+		result := make([]any, len(v))
+		for i, item := range v {
+			result[i] = copyDefaultValue(item)
+		}
+		return result
+	default:
+		return value
+	}
+}
+
 func (o *ObjectSchema) IDUnenforced() bool {
 	return o.IDUnenforcedValue
 }
@@ -490,7 +512,7 @@ func (o *ObjectSchema) applySubObjectDefaultValues(propertyID string, property *
 	}
 	subObjectDefaults := subObject.GetDefaults()
 	for k, v := range subObjectDefaults {
-		data[k] = v
+		data[k] = copyDefaultValue(v)
 	}
 	for subPropertyID, subProperty := range subObject.Properties() {
 		o.applySubObjectDefaultValues(subPropertyID, subProperty, data)
@@ -512,11 +534,12 @@ func (o *ObjectSchema) convertData(v reflect.Value) (map[string]any, error) {
 		}
 		rawData[stringKey] = v.MapIndex(key).Interface()
 	}
+	defaultValues := o.GetDefaults()
 	for propertyID := range o.PropertiesValue {
 		_, isSet := rawData[propertyID]
 		if !isSet {
-			if defaultValue, ok := o.GetDefaults()[propertyID]; ok {
-				rawData[propertyID] = defaultValue
+			if defaultValue, ok := defaultValues[propertyID]; ok {
+				rawData[propertyID] = copyDefaultValue(defaultValue)
 			}
 			if o.fieldCache != nil {
 				o.applySubObjectDefaultValues(propertyID, o.PropertiesValue[propertyID], rawData)
